@@ -40,14 +40,14 @@ package router
 // ---- utils.go / router.go: response builders ----------------------------------------------------
 
 //@ func newEDNS0(udpSize uint16) (opt *dnsmsg.RawResource)
-//@   props C12 C09
+//@   props C12 C09 C01
 //@   modifies nothing
 //@   ensures opt != nil && fresh(opt)
 //@   ensures [C12:own-opt] opt.Type == dnsmsg.TypeOPT && opt.Class == dnsmsg.Class(udpSize < 512 ? 512 : udpSize) && opt.TTL == 0
 //@             && opt.Data == nil && opt.Name == nil
 
 //@ func addOrReplaceOpt(m *dnsmsg.Msg, udpSize uint16)
-//@   props C12
+//@   props C12 C01
 //@   inline
 //@   requires m != nil && wfRecs(m.Additionals)
 //@   modifies *
@@ -60,7 +60,7 @@ package router
 //@   ensures [C12:exactly-one] old(atMostOneOPT(m.Additionals)) ==> atMostOneOPT(m.Additionals)
 
 //@ func makeEmptyRespM(m *dnsmsg.Msg, rcode dnsmsg.RCode) (resp *dnsmsg.Msg)
-//@   props C03 C12
+//@   props C03 C12 C01
 //@   requires m != nil && forall(k, 0, len(m.Questions), m.Questions[k] != nil)
 //@   modifies nothing
 //@   ensures resp != nil && fresh(resp) && wfMsg(resp)
@@ -74,7 +74,7 @@ package router
 //@   ensures [C12:no-opt] len(resp.Answers) == 0 && len(resp.Authorities) == 0 && len(resp.Additionals) == 0
 
 //@ func makeEmptyResp(q *dnsmsg.Question, rc *RequestContext, rcode uint16)
-//@   props C03 C10 C12
+//@   props C03 C10 C12 C01
 //@   requires q != nil && rc != nil
 //@   modifies rc.Response.Msg
 //@   ensures rc.Response.Msg != nil && fresh(rc.Response.Msg) && wfMsg(rc.Response.Msg)
@@ -176,7 +176,7 @@ package router
 //@   ensures err != nil ==> resp == nil
 
 //@ func (r *router) handleReq(ctx context.Context, q *dnsmsg.Question, rc *RequestContext)
-//@   props C03 C10 C12
+//@   props C03 C10 C12 C01
 //@   requires r != nil && q != nil && rc != nil && r.cache != nil && r.cache.logger != nil && forall(k, 0, len(r.rules), r.rules[k] != nil)
 //@   requires r.queryCacheHitTotal != nil && r.prefetch != nil && r.prefetch.queue != nil
 //@   modifies rc.Response.Msg, rc.Response.RuleIdx, rc.Response.Cached, rc.Response.IpMark, obj(r.prefetch.queue)
@@ -201,7 +201,7 @@ package router
 //@ spec func unsupported(m *dnsmsg.Msg) bool = m.Response || !m.RecursionDesired || m.OpCode != 0 || len(m.Questions) != 1
 
 //@ func (r *router) handleReqMsg(ctx context.Context, m *dnsmsg.Msg, rc *RequestContext)
-//@   props C03 C10 C12
+//@   props C03 C10 C12 C01
 //@   requires r != nil && m != nil && rc != nil && wfMsg(m) && r.cache != nil && r.cache.logger != nil && forall(k, 0, len(r.rules), r.rules[k] != nil)
 //@   requires r.queryCacheHitTotal != nil && r.logger != nil && r.prefetch != nil && r.prefetch.queue != nil
 //@   modifies rc.Response.Msg, rc.Response.RuleIdx, rc.Response.Cached, rc.Response.IpMark, obj(r.prefetch.queue)
@@ -250,7 +250,7 @@ package router
 //@   ensures [C13:framed] tcp && (resp == nil || old(optSmall(resp))) ==> BE16(b, 0) == uint16(len(b) - 2) && len(b) - 2 <= 65535
 
 //@ func (r *router) handleServerReq(m *dnsmsg.Msg, rc *RequestContext)
-//@   props C03
+//@   props C03 C01
 //@   requires r != nil && m != nil && rc != nil && wfMsg(m) && r.cache != nil && r.cache.logger != nil && forall(k, 0, len(r.rules), r.rules[k] != nil)
 //@   requires r.queryCacheHitTotal != nil && r.logger != nil && r.queryTotal != nil && r.prefetch != nil && r.prefetch.queue != nil
 //@   modifies *
@@ -270,7 +270,7 @@ package router
 //@   modifies nothing
 
 //@ func (s *udpServer) handleReq(m *dnsmsg.Msg, rc *RequestContext, oobAddr netip.Addr)
-//@   props C03 C09
+//@   props C03 C09 C01
 //@   requires s != nil && routerReady(s.r) && m != nil && rc != nil && wfMsg(m)
 //@   ghost nW int = 0
 //@   oncall writeResp: nW = nW + 1
@@ -284,7 +284,7 @@ package router
 //@     invariant (forall(j, 0, rangeindex+1, !isOPT(m.Additionals[j])) && clientUdpSize == 0) || (exists(k, 0, rangeindex+1, isOPT(m.Additionals[k]) && forall(j, k+1, rangeindex+1, !isOPT(m.Additionals[j])) && clientUdpSize == int(ptrOf(m.Additionals[k], dnsmsg.ResourceHdr).Class)))
 
 //@ func (s *tcpServer) handleReq(c net.Conn, m *dnsmsg.Msg, rc *RequestContext)
-//@   props C03 C13
+//@   props C03 C13 C01
 //@   requires s != nil && routerReady(s.r) && c != nil && m != nil && rc != nil && wfMsg(m) && s.logger != nil
 //@   ghost nW int = 0
 //@   oncall Write: nW = nW + 1
